@@ -38,6 +38,8 @@ func runC16(c *Ctx) {
 	}
 	ob.Hold("found")
 	meekRdBufInvariant(c, p, "R7")
+	meekResponseRules(c, p, "R5")
+	noRetainedWriteArg(c, p, "R5")
 	for _, f := range []*ssa.Function{iow, rt, rd, wr} {
 		c.Touch(p.FuncKey(f))
 	}
